@@ -588,7 +588,8 @@ def scaling(spec, st, obs, rs, rng):
         st2, obs2, _ = kcalc.real_outcome(spec2)
         ev += 1
         if st2 != "ok":
-            vs.append(viol("C12", f"scaled-build-fails:{param}", f"×{k} on {name}.{param}: {obs2}"))
+            if obs2 != "neg-storage":      # D4 (float cancellation in the cumulative storage need) is C04's finding
+                vs.append(viol("C12", f"scaled-build-fails:{param}", f"×{k} on {name}.{param}: {obs2}"))
             continue
         why = obs_diff(drop_objects(obs, {"__system__"}), drop_objects(obs2, {"__system__"}), scale_of=expected)
         if why:
